@@ -97,6 +97,9 @@ func (s *Search) And(field, operator string, value interface{}) *Search {
 		return s
 	}
 
+	s.db.RLock()
+	defer s.db.RUnlock()
+
 	return s.db.search(s.object, field, operator, value, s.fields)
 }
 
@@ -106,6 +109,9 @@ func (s *Search) Or(field, operator string, value interface{}) *Search {
 	if s.err != nil {
 		return s
 	}
+
+	s.db.RLock()
+	defer s.db.RUnlock()
 
 	new := s.db.search(s.object, field, operator, value, nil)
 	marked := make(map[uint64]bool)
